@@ -365,7 +365,7 @@ func runHarness(spec *Spec, h *Harness, tier string, workers int, verbose bool, 
 	hr.st.Reach = map[string]int{}
 	hr.st.Notes = map[string]int{}
 	if hr.solver == "" {
-		hr.solver = "z3"
+		hr.solver = "cvc5"
 	}
 	if hr.params == nil {
 		hr.params = map[string]int{}
